@@ -24,10 +24,12 @@ PROPS = {
         module="Anonymongo.Props.C01",
         theorems=["Anonymongo.C01_tables", "Anonymongo.C01_dispatch", "Anonymongo.C01_zone_entry", "Anonymongo.C01_replaced",
                   "Anonymongo.C01_replaced_enc", "Anonymongo.C01_numbers_bools", "Anonymongo.C01_remote", "Anonymongo.C02_walk",
-                  "Anonymongo.Facts_dispatch", "Anonymongo.Facts_cmdKeys", "Anonymongo.Facts_gate", "Anonymongo.Facts_wiring"],
-        extra_modules=["Anonymongo.Props.SrcFacts"],
+                  "Anonymongo.Facts_dispatch", "Anonymongo.Facts_cmdKeys", "Anonymongo.Facts_gate", "Anonymongo.Facts_wiring",
+                  "Anonymongo.C01_tree", "Anonymongo.C01_tree_whitelisted", "Anonymongo.C01_zone_inv", "Anonymongo.Gen_no_empty_key", "Anonymongo.getOp_prov",
+                  "Anonymongo.Ctx.leafOK_run", "Anonymongo.Ctx.aud_run"],
+        extra_modules=["Anonymongo.Props.SrcFacts", "Anonymongo.Props.C01b"],
         corr=["line", "other", "sweep", "arb", "misc"],
-        statement="(a) kernel-decided over the tables REGENERATED from the binary: every table entry that keeps values (Exempt / FieldName / Namespace / Pipeline) is on the whitelist of operational parameters written from the property text (Spec/Whitelist.lean); (b) every query-bearing command key opens a zone and all three command attributes are walked; (c) for every key path, stage mode and string: a string handed to redactScalarValue under a non-exempt path becomes one of five constants (placeholder mode) or its ciphertext / a constant (encrypt mode, also when Encrypt fails), numbers / booleans become the constant when their flag is on, attr.remote becomes the constant with --redactIPs; (e) the whole output is independent of the replaced literals (C02_walk)",
+        statement="WHOLE TREES (C01_tree / C01_tree_whitelisted, Props/C01b): full-redaction, placeholder mode, field-name redaction off, any other flags: from every zone state, for EVERY tree (any depth, arrays of arrays, any keys) each scalar leaf comes out as a pseudonym, as the placeholder of its lexical class, or unchanged - and unchanged ONLY if it is null, a '$...' reference, a number / boolean whose flag is off, the BSON binary subtype, or lies under a typed table entry (Exempt / FieldName / Namespace / Pipeline) whose table path is a SUBSEQUENCE of the keys from the zone / stage root down to the leaf (getOp_prov: provenance of every lookup through the OperatorArray restart, the OperatorMap cut and the last-key fallbacks), is a member of a namespace document, or sits outside the zones; whole containers are copied only with such an excuse; with the tables REGENERATED from the binary every such entry is one the whitelist of operational parameters allows (C01_tables) and no table has an empty key (Gen_no_empty_key), both kernel-decided. Components: (a) kernel-decided over the tables REGENERATED from the binary: every table entry that keeps values (Exempt / FieldName / Namespace / Pipeline) is on the whitelist of operational parameters written from the property text (Spec/Whitelist.lean); (b) every query-bearing command key opens a zone and all three command attributes are walked; (c) for every key path, stage mode and string: a string handed to redactScalarValue under a non-exempt path becomes one of five constants (placeholder mode) or its ciphertext / a constant (encrypt mode, also when Encrypt fails), numbers / booleans become the constant when their flag is on, attr.remote becomes the constant with --redactIPs; (e) the whole output is independent of the replaced literals (C02_walk)",
         partial="that a literal at a spec-sensitive position of an arbitrary tree always reaches redactScalarValue under a non-exempt path is proved per lookup (the exemption can only come from a whitelisted table entry: C01_tables) but the link 'document position -> key path handed to the lookup' is the walker model, tied to the code by correspondence, and checked end to end by the planted-token oracle (in-process and through the real CLI); selective mode is excluded by the property",
     ),
     "C02": dict(
